@@ -487,7 +487,7 @@ def legacy_buffer_scale_cases(draw, ops=('upload', 'download')):
         st.integers(max(1, (nparts - 1) * chunk + 1), nparts * chunk),
         st.sampled_from([chunk, 2 * chunk, 2 * chunk + 1, 3 * chunk - 1])))
     thr = draw(st.sampled_from([1, size, size + 1]))
-    caps = st.sampled_from([0, 1, 100, 4096, 5000, 8191, 8192, 8193, 10000,
+    caps = st.sampled_from([0, 2048, 4096, 5000, 8191, 8192, 8193, 10000,
                             12345, LEGACY_READ - 1, LEGACY_READ,
                             LEGACY_READ + 1, 30000])
     case = {'kind': 'legacy', 'op': op, 'size': size, 'threshold': thr,
